@@ -16,12 +16,13 @@ CLAIMED = {
          "No-false-negative / reset / bit accounting are invariants of the specification; the real filter is shown equal to the specified filter on every recorded call at real sizes, and the specification itself counts false positives of never-added probes at full load (<= 4p + 10).",
          "Trusted: TLC, facade; the rate bound is statistical (seeded pseudo-random hashes); sizing floating point bracketed with 1e-3 slack.", "5/C14"),
 }
-STAGES = (" Executions come from three sources: seeded random walks under the baton scheduler; schedules generated by TLC simulating "
-          "SIM_Cache.tla (specification -> implementation); and, where the property lives in the background loops, free-running runs of "
-          "the real loops / executors whose quiescent snapshots Free_Trace.tla checks against the state predicates of Cache.tla.")
+STAGES = (" Executions come from seeded random walks under the baton scheduler; schedules generated (sampled or enumerated) by TLC from "
+          "SIM_Cache.tla (specification -> implementation); free-running runs of the real loops / executors and of truly parallel "
+          "clients, whose quiescent snapshots and logs Free_Trace.tla checks against the state predicates of Cache.tla; and, where "
+          "blocking matters, the lock events of every step (Locks_Trace.tla, MC_Locks_observed).")
 CACHE_NOTE = ("Trusted: TLC; hooks H2-H4 (processors parked and stepped through the loop's own handlers; yield points between, never "
               "inside, critical sections); snapshot projection H6; virtual clock H1. Exhaustive model checking only for the small "
-              "constants listed in the evidence; behaviours carrying a known-finding signature (D6, D7) are exempt from the affected "
+              "constants listed in the evidence; behaviours carrying the known-finding signature D7 are exempt from the affected "
               "invariants from that point on.")
 def cache_entry(title, text, ref):
     return ("cache", "TLC exhaustive on Cache.tla (MC_Cache configs) + TLC trace validation (Cache_Trace.tla / Free_Trace.tla) of the real cache: " + title,
@@ -35,7 +36,7 @@ CLAIMED.update({
  "C06": cache_entry("store/policy agreement", "Resident = Charged at every quiescent state is an invariant of the specification (all interleavings of 2 clients with the fine-grained processor) and is evaluated on every quiescent state of the recorded executions.", "5/C06"),
  "C08": cache_entry("callback conservation", "Callbacks (kind, value id, cost) fired inside each section are compared with the specification's; conservation (resident xor exactly one callback xor dropped by clear) is an invariant evaluated at every quiescent state.", "5/C08"),
  "C09": cache_entry("conditional writes", "insert_if_present and vetoing validators (asymmetric and symmetric predicates) on resident, absent, colliding, expired-unswept and still-buffered keys; result, value, deadline, buckets and buffer effect compared after every call.", "5/C09"),
- "C10": cache_entry("wait barrier and termination", "All interleavings of wait with inserts, removes, clear and close for 2 clients are model-checked (no orphaned waiter except under D6); every wait() of the real cache must return exactly when the specification releases its marker, with the specified state.", "5/C10"),
+ "C10": cache_entry("wait barrier and termination", "All interleavings of wait with inserts, removes, clear and close for 2 clients are model-checked (no orphaned waiter; every started call returns); every wait() of the real cache must return exactly when the specification releases its marker, with the specified state.", "5/C10"),
  "C11": cache_entry("clear", "clear() with 0..N buffered items, the processor and a second client interleaved at every section; store, buckets, charges, estimator and every metrics counter compared after each section.", "5/C11"),
  "C12": cache_entry("close protocol", "Concurrent closers, operations racing close, stop rendezvous and worker exit are model-checked for 2 clients x 3 calls; results after close, blocking points and both workers' exits of the real cache must follow the specification.", "5/C12"),
  "C16": cache_entry("charged cost formula", "The charge applied by the policy for every New/Update item must be cost (or Coster value) + size_of::<StoreItem<V>> (read from the implementation) unless ignored; evict/reject records carry it.", "5/C16"),
@@ -95,7 +96,7 @@ def main():
             {"name": "keyhash", "path": "spec/KeyHash.tla spec/KeyHash_Trace.tla harness/src/keyhash.rs", "serves_properties": ["C18"], "kind_free_text": "TLA+/TLC trace validation"},
         ],
         "checks": checks,
-        "notes": "add_only=false: hook H1 splits the one `use std::time::{Duration, SystemTime, UNIX_EPOCH}` line of src/ttl.rs into cfg'd imports so that the virtual clock can stand in for SystemTime; every other hook line is an addition. Known findings and fixed defects: /verif/known_findings.json.",
+        "notes": "add_only=false: hook H1 splits the one `use std::time::{Duration, SystemTime, UNIX_EPOCH}` line of src/ttl.rs into cfg'd imports so that the virtual clock can stand in for SystemTime; hooks H9 do the same to the `use parking_lot::...` lines of store.rs, ttl.rs, policy.rs, policy/{sync,async}.rs, ring.rs and utils.rs (traced locks); every other hook line is an addition. Known findings and fixed defects: /verif/known_findings.json.",
         "not_applicable": [{"property_id": p, "reason": NOT_YET} for p in ALL if p not in CLAIMED],
     }
     json.dump(m, open(os.path.join(V, "MANIFEST.json"), "w"), indent=1)
